@@ -17,6 +17,7 @@ const pePkg = "vcr/pe"
 const goDidVC = "github.com/nuts-foundation/go-did/vc"
 
 func c12(r *Report) {
+	defer c12Seed8(r)
 	defer c12Seed5(r)
 	defer c12Seed6(r)
 	p := r.P
